@@ -30,6 +30,7 @@ type Feat struct {
 	Tiny                                     bool // one or two statements only
 	NoStrLit                                 bool // sparse programs: string values only from variables, itoa, defaults — no string literal anywhere
 	NamePool                                 bool // draw function names from a small shared pool (different programs then define the same names in different orders)
+	WorldPaths                               []string // relative paths (as seen from this program's file) of files and directories that exist in the world: string literals and program names may coincide with them
 }
 
 // RandomFeat draws a feature subset and size knobs ("swarm" style).
@@ -215,6 +216,10 @@ func (g *pgen) strLit() string {
 	if g.f.NoStrLit {
 		return "itoa(" + fmt.Sprint(g.r.Intn(50)) + ")"
 	}
+	if len(g.f.WorldPaths) > 0 && g.r.Chance(12) {
+		// a literal that happens to name something that exists next to the sources
+		return `"` + g.r.Pick(g.f.WorldPaths) + `"`
+	}
 	w := g.r.Pick(words)
 	if g.r.Chance(8) {
 		return "`" + w + "`"
@@ -224,6 +229,10 @@ func (g *pgen) strLit() string {
 	}
 	if g.r.Chance(4) {
 		w += `\t`
+	}
+	if g.r.Chance(5) {
+		// every escape the lexer accepts: the emitted text then holds the control character itself
+		w += g.r.Pick([]string{`\r\n`, `\r`, `\r\nnext`, `a\rb`, `\a`, `\v\f`, `\b`, `\\`, `\"q\"`, `\r\n\r\n`})
 	}
 	return `"` + w + `"`
 }
@@ -612,6 +621,9 @@ func (g *pgen) block(env []variable, n int, depth int, inFunc, inLoop bool, uppe
 					args[j] = g.expr("string", env, 2)
 				}
 				name := r.Pick([]string{"ls", "grep", "echo", "sort", "cat", "`/bin/ls`", `"my prog"`})
+				if len(g.f.WorldPaths) > 0 && r.Chance(30) {
+					name = `"` + r.Pick(g.f.WorldPaths) + `"`
+				}
 				chain = append(chain, fmt.Sprintf("@%s(%s)", name, strings.Join(args, ", ")))
 			}
 			if r.Chance(50) {
